@@ -277,7 +277,18 @@ fn shard(seed: u64, shard: u64, n: u64) -> Tally {
                 _ => {
                     for h in c.wire.headers.iter_mut() {
                         if h.0.eq_ignore_ascii_case(b"content-type") {
-                            h.1 = b"application/x-www-form-urlencoded; charset=zz-unknown".to_vec();
+                            // (the charset parameter wherever it stands: after an empty parameter, after one without a
+                            // value, after a quoted one — RFC 9110 §5.6.6 admits them all)
+                            h.1 = r
+                                .pick_bytes(&[
+                                    b"application/x-www-form-urlencoded; charset=zz-unknown",
+                                    b"application/x-www-form-urlencoded;; charset=zz-unknown",
+                                    b"application/x-www-form-urlencoded; ;charset=zz-unknown",
+                                    b"application/x-www-form-urlencoded; flag; charset=zz-unknown",
+                                    b"application/x-www-form-urlencoded;a;b=c;;charset=ZZ-Unknown",
+                                    b"application/x-www-form-urlencoded; boundary=\"x\"; charset=zz-unknown",
+                                ])
+                                .to_vec();
                         }
                     }
                 }
